@@ -242,7 +242,13 @@ def body_of(def_lines, contents, what):
 
 def check_fn(desc):
     obj = mk(desc)
-    decl, dfn = obj.as_decl, obj.as_def
+    check_rendered(desc, obj.as_decl, obj.as_def)
+    # rendering is repeatable
+    if (obj.as_decl, obj.as_def) != (obj.as_decl, obj.as_def):
+        raise Fail('rendering twice gives different text', 'not-repeatable')
+
+
+def check_rendered(desc, decl, dfn):
     what = desc['what']
     expect(decl.endswith(';\n') and decl.count('\n') == 1, f'declaration not one line: {decl!r}',
            'decl-shape')
@@ -315,6 +321,55 @@ def check_fn(desc):
             body_of(rest, desc['contents'], what)
         else:
             expect(rest == ['{', '}'], f'empty body expected, got {rest!r}', 'def-body')
+
+
+# ---- (a2) the descriptions are plain mutable dataclasses: render, change a field, render again
+
+def check_rerender(case):
+    """Build the objects of `first`, render them, then update them in place to `second` (same
+    kind) and check the rendering against `second` - nothing of the first rendering may stick."""
+    first, second = case['first'], case['second']
+    obj = mk(first)
+    _ = obj.as_decl, obj.as_def  # first rendering
+    params2 = [p for p in second.get('params', [])]
+    olds = list(getattr(obj, 'params', []))
+    news = []
+    for i, pd in enumerate(params2):
+        if pd is None:
+            news.append(None)
+        elif i < len(olds) and olds[i] is not None:
+            po = olds[i]  # reuse the already rendered Param object, updated in place
+            po.type_desc = mk_type(pd['type'])
+            po.name = pd['name']
+            news.append(po)
+        else:
+            news.append(mk_param(pd))
+    if first['what'] == 'function':
+        fresh = mk(second)
+        obj.return_type, obj.name, obj.params = fresh.return_type, fresh.name, news
+        obj.prefix, obj.cav, obj.override = fresh.prefix, fresh.cav, fresh.override
+        obj.initialization, obj.contents, obj.scope = fresh.initialization, fresh.contents, fresh.scope
+    elif first['what'] == 'ctor':
+        fresh = mk(second)
+        obj.scope, obj.explicit, obj.params = fresh.scope, fresh.explicit, news
+        obj.initialization, obj.member_initlist, obj.contents = \
+            fresh.initialization, fresh.member_initlist, fresh.contents
+    else:
+        fresh = mk(second)
+        obj.scope, obj.override = fresh.scope, fresh.override
+        obj.initialization, obj.contents = fresh.initialization, fresh.contents
+    check_rendered(second, obj.as_decl, obj.as_def)
+    # a copy of a rendered parameter that is renamed must render under its new name
+    import copy
+    for pd in [p for p in first.get('params', []) if p]:
+        orig = mk_param(pd)
+        _ = orig.as_decl, orig.as_def
+        dup = copy.deepcopy(orig)
+        dup.name = pd['name'] + '_2'
+        if not dup.as_def.endswith(' ' + pd['name'] + '_2') or \
+                (' ' + pd['name'] + '_2') not in dup.as_decl:
+            raise Fail(f'a renamed copy of a rendered parameter still renders as {dup.as_def!r} / '
+                       f'{dup.as_decl!r}', 'stale-param-rendering')
 
 
 # ---- (b) containers
@@ -641,12 +696,17 @@ def labels_fn(d):
 
 
 def run(ctx):
-    n = ctx.n(3000, 300000)
+    n = ctx.n(1800, 300000)
     ctx.clause('function', function_desc(), check_fn, n, nontrivial=nontrivial_fn, labels=labels_fn)
     ctx.clause('constructor', ctor_desc(), check_fn, max(1, n // 3), nontrivial=nontrivial_fn,
                labels=labels_fn)
     ctx.clause('destructor', dtor_desc(), check_fn, max(1, n // 10), nontrivial=lambda d: False,
                labels=labels_fn)
+    same_kind = st.one_of(st.tuples(function_desc(), function_desc()), st.tuples(ctor_desc(), ctor_desc()),
+                          st.tuples(dtor_desc(), dtor_desc()))
+    ctx.clause('rerender', same_kind.map(lambda t: {'first': t[0], 'second': t[1]}), check_rerender,
+               max(1, n // 3), nontrivial=lambda c: nontrivial_fn(c['second']),
+               labels=lambda c: ['rerender-' + c['first']['what']])
     ctx.clause('containers', st.fixed_dictionaries({
         'lines': block_lines, 'ns': st.lists(st.sampled_from(IDS), max_size=3),
         'ctor_contents': st.booleans(), 'name': st.sampled_from(['MyStruct', 'S', 'x_1']),
